@@ -18,7 +18,7 @@ RULE = ("Hypothesis draws (store algorithm, content with boundary-biased size, k
         "(kind, algorithm, size class, offset class, shape of the history).")
 ASSUMPTIONS = ["contents up to 5*8192+1 bytes", "single thread", "local POSIX file system (tmpfs)"]
 
-OTHERS = ["q1", "q2"]
+OTHERS = ["target:pid", "the/target:pid.2"]  # a suffix and an extension of the target pid
 TARGET = "the/target:pid"
 
 
